@@ -92,9 +92,9 @@ def run(chk):
         # CommitMC_q5p3.cfg / CommitMC_q5all.cfg (0.7M / 45k states, no export) are kept for manual runs: too slow for a shared machine
         mcs = [("q11", False), ("q11s", False), ("q3p", True), ("q3p3", True), ("q5p", True), ("q7p", False)]
         toy_jobs = [("toy-q11", ["-q", "11", "-what", "ped,keys,elg"]),
-                    ("toy-q7", ["-q", "7", "-what", "ped,keys,elg"]),
+                    ("toy-q3", ["-q", "3", "-what", "ped,keys,elg"]),
                     ("toy-q5", ["-q", "5", "-what", "ped,keys,elg"]),
-                    ("toy-q13", ["-q", "13", "-what", "ped,keys,elg", "-lams", "2,6,12"])]
+                    ("toy-q23", ["-q", "23", "-what", "ped,keys,elg", "-lams", "2,22"])]   # q and 2q+1 must be prime
         rand_jobs = [(11, 3000), (251, 3000), (45971, 300)]
         tok_n, key_n, int_args = 150, 400, [("int-47x59", ["-q", "0", "-n", "600"]), ("int-83x107", ["-q", "1", "-n", "600"])]
     stats = {"lines": 0, "by_action": {}, "programmes_from_tlc": 0}
